@@ -50,9 +50,11 @@ def hist_scripts(lines, kt_model, limit, seed):
         seen.add(body)
         uniq.append(body)
     uniq = pick(uniq, limit, seed)
-    own, other = ("k1", "k2") if kt_model == "k256" else ("e1", "e2")
-    kts = ["k256", "libsecp", "comb", "wk256"] if kt_model == "k256" else ["ed", "comb", "wed"]
-    name = {"own": own, "other": other}
+    own, other, cross = {"k256": ("k1", "k2", "e2"), "ed": ("e1", "e2", "k3"),
+                         "comb_secp": ("k1", "k2", "e2"), "comb_ed": ("e1", "e2", "k3")}[kt_model]
+    kts = {"k256": ["k256", "libsecp", "comb", "wk256"], "ed": ["ed", "comb", "wed"],
+           "comb_secp": ["comb", "wcomb"], "comb_ed": ["comb", "wcomb"]}[kt_model]
+    name = {"own": own, "other": other, "cross": cross}
     scripts = []
     for n, body in enumerate(uniq):
         t = json.loads(body)
@@ -159,6 +161,8 @@ MODELS = {
     # replayed against the implementation (Emit = TRUE): kept at sizes whose output stays manageable
     "hist_k256": lambda tier, wd, seed=1: model_hist("k256", 2, Q(tier, 1500, 14472), seed, wd),
     "hist_ed": lambda tier, wd, seed=1: model_hist("ed", 2, Q(tier, 800, 15000), seed, wd),
+    "hist_comb_secp": lambda tier, wd, seed=1: model_hist("comb_secp", 2, Q(tier, 700, 20000), seed, wd),
+    "hist_comb_ed": lambda tier, wd, seed=1: model_hist("comb_ed", 2, Q(tier, 700, 20000), seed, wd),
     "gen_secp": lambda tier, wd, seed=1: model_gen("secp", 2, ALL_CLASSES, Q(tier, 6000, 49770), seed, wd),
     "gen_ed": lambda tier, wd, seed=1: model_gen("ed", 3, CORE_CLASSES, Q(tier, 4000, 60000), seed, wd),
     # thorough only: deeper / wider instances, invariants only (no emission)
